@@ -40,9 +40,14 @@ def build_signatures(modules):
         for ch in ast.iter_child_nodes(node):
             if isinstance(ch, ast.ClassDef):
                 init = next((m for m in ch.body if isinstance(m, FUNC_TYPES) and m.name == "__init__"), None)
+                bases = {getattr(b, "id", getattr(b, "attr", None)) for b in ch.bases}
+                decos = {getattr(d, "id", getattr(d, "attr", None)) or getattr(getattr(d, "func", None), "id", None) for d in ch.decorator_list}
                 if init is not None:
                     p = _params(init, True)
                     classes.setdefault(ch.name, []).append(p)
+                elif "NamedTuple" in bases or "dataclass" in decos:
+                    fields = [m.target.id for m in ch.body if isinstance(m, ast.AnnAssign) and isinstance(m.target, ast.Name) and "ClassVar" not in ast.unparse(m.annotation)]
+                    classes.setdefault(ch.name, []).append(fields)
                 else:
                     classes.setdefault(ch.name, []).append(None)  # inherited constructor: unknown here
                 visit(ch, True)
@@ -96,6 +101,8 @@ def canonicalise_calls(tree: ast.AST, funcs: dict[str, list[str]], classes: dict
             if f.attr == "__init__":
                 continue
             params = funcs["methods"].get(f.attr)
+            if params is None and f.attr[:1].isupper():
+                params = classes.get(f.attr)  # self.Solution(...): a class held as attribute
         if not params:
             continue
         if len(call.args) > len(params):
@@ -191,7 +198,8 @@ def local_defs(func: ast.AST) -> dict[str, list[tuple[str, ast.AST | None, ast.s
                 out.setdefault(name, []).append(("comp", n.iter, None))
         elif isinstance(n, ast.ExceptHandler) and n.name:
             out.setdefault(n.name, []).append(("except", None, n))
-    return {k: v for k, v in out.items() if k not in params}
+    # a parameter that is re-assigned in the body is kept: its new definitions identify it like any local
+    return {k: v for k, v in out.items() if k not in params or any(kind in ("assign", "aug") for kind, _, _ in v)}
 
 
 def _shape(kind: str, e: ast.AST | None, local_names: set[str]) -> str:
@@ -321,6 +329,16 @@ def normalise_locals(func: ast.AST, ref: dict[str, list[str]]) -> tuple[dict[str
         cands = [m for m in missing if m not in mapping.values() and ref[m] == cur[n_new]]
         if len(cands) >= 1:
             mapping[n_new] = cands[0]
+    params = {a.arg for a in [*func.args.posonlyargs, *func.args.args, *func.args.kwonlyargs]}
+    for n_new, tgt in list(mapping.items()):
+        if tgt in params:
+            # renaming a local to the name of a parameter (today's code re-assigns the parameter): only when every
+            # read of the parameter happens before/in the definition of the local, so that no later read changes meaning
+            defs = local_defs(func).get(n_new, [])
+            first_def = min((getattr(st, "lineno", 10**9) for _, _, st in defs if st is not None), default=None)
+            reads = [n for n in _own_nodes(func) if isinstance(n, ast.Name) and n.id == tgt and isinstance(n.ctx, ast.Load)]
+            if first_def is None or any(getattr(r, "lineno", 0) > max((getattr(st, "end_lineno", 0) for _, _, st in defs if st is not None and getattr(st, "lineno", 0) == first_def), default=0) for r in reads):
+                del mapping[n_new]
     if mapping and not (set(mapping.values()) & (set(cur) - set(mapping))):
         _rename(func, mapping)
     else:
@@ -351,4 +369,108 @@ def canonicalise_tests(tree: ast.AST) -> int:
             node.test = node.test.operand
             node.body, node.orelse = node.orelse, node.body
             n += 1
+    return n
+
+
+
+def canonicalise_idioms(tree: ast.AST) -> int:
+    """Small behaviour-preserving rewrites to one spelling.
+
+    * ``if (x := e) <test>:`` -> ``x = e`` followed by ``if x <test>:`` (statement-level walrus in an if test)
+    * ``T[i] = T[i] op e`` -> ``T[i] op= e`` (item assignment writes in place either way)
+    * ``e.transpose()`` -> ``e.T``;  ``len(x) >= 2`` -> ``len(x) > 1``;  ``len(x) == 0`` -> ``not x``;  ``len(x) > 0`` / ``!= 0`` / ``>= 1`` -> ``x`` (in tests)
+    """
+    n = 0
+
+    class T(ast.NodeTransformer):
+        def visit_Call(self, node):  # noqa: N802
+            self.generic_visit(node)
+            nonlocal n
+            if isinstance(node.func, ast.Attribute) and node.func.attr == "transpose" and not node.args and not node.keywords:
+                n += 1
+                return ast.copy_location(ast.Attribute(value=node.func.value, attr="T", ctx=ast.Load()), node)
+            return node
+
+        def visit_Compare(self, node):  # noqa: N802
+            self.generic_visit(node)
+            nonlocal n
+            if len(node.ops) == 1 and isinstance(node.left, ast.Call) and getattr(node.left.func, "id", None) == "len" and isinstance(node.comparators[0], ast.Constant) and isinstance(node.comparators[0].value, int):
+                c = node.comparators[0].value
+                op = type(node.ops[0])
+                if op is ast.GtE and c >= 1:
+                    node.ops = [ast.Gt()]
+                    node.comparators = [ast.copy_location(ast.Constant(value=c - 1), node.comparators[0])]
+                    n += 1
+                elif op is ast.LtE and c >= 0:
+                    node.ops = [ast.Lt()]
+                    node.comparators = [ast.copy_location(ast.Constant(value=c + 1), node.comparators[0])]
+                    n += 1
+            return node
+
+        def _body(self, stmts):
+            nonlocal n
+            out = []
+            for st in stmts:
+                if isinstance(st, ast.If):
+                    t = st.test
+                    host = t.operand if isinstance(t, ast.UnaryOp) and isinstance(t.op, ast.Not) else t
+                    w = None
+                    if isinstance(host, ast.NamedExpr):
+                        w = host
+                    elif isinstance(host, ast.Compare) and isinstance(host.left, ast.NamedExpr):
+                        w = host.left
+                    if w is not None:
+                        out.append(ast.copy_location(ast.Assign(targets=[ast.Name(id=w.target.id, ctx=ast.Store())], value=w.value), st))
+                        repl = ast.copy_location(ast.Name(id=w.target.id, ctx=ast.Load()), w)
+                        if host is w:
+                            if host is t:
+                                st.test = repl
+                            else:
+                                t.operand = repl
+                        else:
+                            host.left = repl
+                        n += 1
+                if isinstance(st, ast.Assign) and len(st.targets) == 1 and isinstance(st.targets[0], ast.Subscript) and isinstance(st.value, ast.BinOp) and isinstance(st.value.op, (ast.Add, ast.Sub, ast.Mult, ast.Div)):
+                    tt = ast.unparse(st.targets[0])
+                    if ast.unparse(st.value.left) == tt:
+                        st = ast.copy_location(ast.AugAssign(target=st.targets[0], op=st.value.op, value=st.value.right), st)
+                        n += 1
+                    elif isinstance(st.value.op, (ast.Add, ast.Mult)) and ast.unparse(st.value.right) == tt:
+                        st = ast.copy_location(ast.AugAssign(target=st.targets[0], op=st.value.op, value=st.value.left), st)
+                        n += 1
+                out.append(st)
+            return out
+
+        def generic_visit(self, node):
+            super().generic_visit(node)
+            for fld in ("body", "orelse", "finalbody"):
+                b = getattr(node, fld, None)
+                if isinstance(b, list) and b and isinstance(b[0], ast.stmt):
+                    setattr(node, fld, self._body(b))
+            return node
+
+    T().visit(tree)
+    # len(x) == 0 / > 0 / != 0 in tests
+    for node in ast.walk(tree):
+        tests = []
+        if isinstance(node, (ast.If, ast.While, ast.IfExp)):
+            tests.append(("test", node))
+        for attr, host in tests:
+            t = getattr(host, attr)
+            neg = False
+            inner = t
+            if isinstance(inner, ast.UnaryOp) and isinstance(inner.op, ast.Not):
+                inner, neg = inner.operand, True
+            if isinstance(inner, ast.Compare) and len(inner.ops) == 1 and isinstance(inner.left, ast.Call) and getattr(inner.left.func, "id", None) == "len" and len(inner.left.args) == 1 and isinstance(inner.comparators[0], ast.Constant) and inner.comparators[0].value == 0:
+                op = type(inner.ops[0])
+                x = inner.left.args[0]
+                if op in (ast.Eq,):
+                    new = x if neg else ast.UnaryOp(op=ast.Not(), operand=x)
+                elif op in (ast.Gt, ast.NotEq):
+                    new = ast.UnaryOp(op=ast.Not(), operand=x) if neg else x
+                else:
+                    continue
+                setattr(host, attr, ast.copy_location(new, t))
+                n += 1
+    ast.fix_missing_locations(tree)
     return n
